@@ -207,10 +207,23 @@ func runC07Case(r *ev.Run, c c07Case) {
 	if c.Policy == "implicit-then-setnotls" {
 		cl.SetTLSPolicy(mail.NoTLS)
 	}
-	msg, _ := simpleMsg("c07", "sender@verif.example", []string{"rcpt@verif.example"}, "quoted-printable", "confidential body "+pass[:4]+"\r\n")
-	ctx, cancel := context.WithTimeout(context.Background(), 10*time.Second)
-	dialErr := cl.DialAndSendWithContext(ctx, msg)
-	cancel()
+	var dialErr error
+	if c.Policy == "quicksend" {
+		// the all-in-one entry point: opportunistic TLS, auto-discovery when credentials are given; it takes no
+		// tls.Config, so the harness CA has been made the process's system root store
+		var ad *mail.AuthData
+		if c.AuthType == "AUTODISCOVER" {
+			ad = mail.NewAuthData(user, pass)
+		}
+		_, dialErr = mail.QuickSend(net.JoinHostPort(c.Host, fmt.Sprint(port)), ad, "sender@verif.example", []string{"rcpt@verif.example"},
+			"c07 quick", []byte("confidential body "+pass[:4]+"\r\n"))
+		r.Count("quicksend_sessions", 1)
+	} else {
+		msg, _ := simpleMsg("c07", "sender@verif.example", []string{"rcpt@verif.example"}, "quoted-printable", "confidential body "+pass[:4]+"\r\n")
+		ctx, cancel := context.WithTimeout(context.Background(), 10*time.Second)
+		dialErr = cl.DialAndSendWithContext(ctx, msg)
+		cancel()
+	}
 	var sess *refsmtp.Session
 	select {
 	case sess = <-sessCh:
@@ -569,13 +582,17 @@ func runC07Shared(r *ev.Run, c c07SharedCase) {
 
 func runC07(r *ev.Run, rep *ev.ReplayDoc) ev.Summary {
 	sum := ev.Summary{
-		Rule: "matrix policy {mandatory, opportunistic, none, implicit (WithSSL; also WithSSLPort / SetSSLPort after an explicit WithPort, WithSSL followed by the STARTTLS policy NoTLS, and the fixed fallback port)} x auth type (all 13; custom = a harness mechanism without password) x host {localhost, 127.0.0.1, 127.0.0.2 (a non-localhost name reachable on loopback; certificate SANs cover all three)} x server behaviour {STARTTLS advertised or not; STARTTLS reply 220 / 454 / 502 / garbage; handshake ok / wrong-name certificate / untrusted certificate / garbage bytes} x 4 advertised AUTH lists, over real loopback TCP with the library's own dialers (tls.Dialer for implicit TLS). thorough enumerates the full matrix (minus combinations that cannot differ), quick a deterministic covering subset. The tap below the TLS layer records every byte before the first TLS record. Plus sequences on one live Client: dial under NoTLS / opportunistic, SetTLSPolicy(TLSMandatory), dial again (with and without Close in between), send; and one *tls.Config without ServerName shared by two Clients for different hosts whose servers both present the certificate of the first host. distinct by case",
+		Rule: "matrix policy {mandatory, opportunistic, none, implicit (WithSSL; also WithSSLPort / SetSSLPort after an explicit WithPort, WithSSL followed by the STARTTLS policy NoTLS, and the fixed fallback port), QuickSend (opportunistic TLS and auto-discovery chosen by the library; the harness CA is the process's system root store)} x auth type (all 13; custom = a harness mechanism without password) x host {localhost, 127.0.0.1, 127.0.0.2 (a non-localhost name reachable on loopback; certificate SANs cover all three)} x server behaviour {STARTTLS advertised or not; STARTTLS reply 220 / 454 / 502 / garbage; handshake ok / wrong-name certificate / untrusted certificate / garbage bytes} x 4 advertised AUTH lists, over real loopback TCP with the library's own dialers (tls.Dialer for implicit TLS). thorough enumerates the full matrix (minus combinations that cannot differ), quick a deterministic covering subset. The tap below the TLS layer records every byte before the first TLS record. Plus sequences on one live Client: dial under NoTLS / opportunistic, SetTLSPolicy(TLSMandatory), dial again (with and without Close in between), send; and one *tls.Config without ServerName shared by two Clients for different hosts whose servers both present the certificate of the first host. distinct by case",
 		Assumptions: []string{
 			"'localhost names' are localhost, 127.0.0.1, ::1; 127.0.0.2 stands for any other host",
 			"credentials are unique 16-18 character random strings; searched raw, base64 (3 alphabets), hex, and inside every base64 token of the cleartext",
 		},
 		Floors:     []ev.Floor{{Counter: "sessions", Min: 500}, {Counter: "sessions_encrypted", Min: 100}, {Counter: "bad_handshakes_observed", Min: 60}, {Counter: "cleartext_lines_scanned", Min: 1000}, {Counter: "password_in_clear_permitted", Min: 10}},
 		Exhaustive: r.Thorough(),
+	}
+	if err := gen.TrustHarnessCAAsSystemRoot(); err != nil {
+		r.HarnessError("system root store: " + err.Error())
+		return sum
 	}
 	if rep != nil {
 		var sh c07SharedCase
@@ -660,6 +677,24 @@ func runC07(r *ev.Run, rep *ev.ReplayDoc) ev.Summary {
 			}
 		}
 		cases = append(cases, c07Case{Policy: "implicit", AuthType: "PLAIN-NOENC", Host: host, Reply: "220", Handshake: "ok", AuthList: c07AuthLists[0], PlainServer: true})
+	}
+	// QuickSend: opportunistic TLS and auto-discovery chosen by the library itself
+	for _, host := range []string{"127.0.0.2", "localhost"} {
+		for _, at := range []string{"AUTODISCOVER", "NOAUTH"} {
+			for ali, al := range c07AuthLists {
+				cases = append(cases, c07Case{Policy: "quicksend", AuthType: at, Host: host, Reply: "220", Handshake: "ok", AuthList: al})
+				for _, rp := range []string{"4yz", "5yz", "garbage"} {
+					if r.Thorough() || ali == 0 {
+						cases = append(cases, c07Case{Policy: "quicksend", AuthType: at, Host: host, StartTLS: true, Reply: rp, Handshake: "ok", AuthList: al})
+					}
+				}
+				for _, hs := range []string{"ok", "wrongname", "untrusted", "garbage"} {
+					if r.Thorough() || ali < 2 {
+						cases = append(cases, c07Case{Policy: "quicksend", AuthType: at, Host: host, StartTLS: true, Reply: "220", Handshake: hs, AuthList: al})
+					}
+				}
+			}
+		}
 	}
 	r.ParallelN(48, len(cases), func(i int) {
 		if i%131 == 0 {
